@@ -132,7 +132,7 @@ func VerifC05_Props() {
 // when a named variable was not provided, and the error names it.
 func VerifC05_Required() {
 	haveMust := zzChoice("must", 3) // 0 absent, 1 prop, 2 includer variable
-	haveAlso := zzChoice("also", 3)
+	haveAlso := zzChoice("also", 4) // 3: includer variable that is present with a nil value
 	single := zzBool("single")
 	fmDefines := !single && zzBool("frontmatterDefinesMust")
 	data := map[string]any{}
@@ -148,6 +148,8 @@ func VerifC05_Required() {
 		props += ` also="A"`
 	case 2:
 		data["also"] = "A"
+	case 3:
+		data["also"] = nil
 	}
 	file := "req.vuego"
 	if single {
